@@ -848,7 +848,7 @@ def c08_family(tier):
 def c18_family(tier):
     out  = []
     full = tier == 'thorough'
-    runs = {'short': 400, 'one': 1000, 'long': 2500}     # run length relative to the 1 s heartbeat interval
+    runs = {'short': 400, 'late': 700, 'one': 1000, 'late2': 1800, 'long': 2500}     # run length relative to the 1 s heartbeat interval (early / late in it, on the beat)
 
     def one(name, fpatch, extras, kind, length):
         f = {**src(2000, 'flt', period=100), 'outputs': 0}
@@ -883,6 +883,13 @@ def c18_family(tier):
                                ('raise-process', {'faults': [{'at': 'process', 'k': 12, 'what': 'raise'}]}, {}, 'error'),
                                ('stop-evt', {}, {'stop_at': [{'f': 'flt', 'at_ms': 1200}]}, 'clean')]:
             one(f'slow-backend{ms}/{nm}', fp, {**ex, 'lineage': {'interval': 1, 'emit_ms': {'RUNNING': ms}}, 'horizon_ms': 1200 + 2 * ms + 2500}, kd, 'one')
+
+    # a lineage backend that refuses one kind of event (emit() raises): the history handed to it must still be well formed
+    for fail in [('COMPLETE', 'ABORT'), ('RUNNING',), ('START',)]:
+        for nm, fp, ex, kd in [('exit-process', {'faults': [{'at': 'process', 'k': 12, 'what': 'exit'}]}, {}, 'clean'),
+                               ('raise-process', {'faults': [{'at': 'process', 'k': 12, 'what': 'raise'}]}, {}, 'error'),
+                               ('stop-evt', {}, {'stop_at': [{'f': 'flt', 'at_ms': 1200}]}, 'clean')]:
+            one(f'backend-refuses-{fail[0].lower()}/{nm}', fp, {**ex, 'lineage': {'interval': 1, 'emit_fail': list(fail)}}, kd, 'one')
 
     # interrupted runs: KeyboardInterrupt / a foreign sys.exit() out of process() or setup() (run() raises: not a clean end)
     for what in ['interrupt', 'sysexit']:
